@@ -112,7 +112,8 @@ def gen_case(rng):
             mixed = False
     elif k >= 2 and special < 0.11:
         kind = 'period'
-        dts[rng.randrange(k)] = 4.0
+        # clearly different, or different only beyond the 6 significant digits the error message prints
+        dts[rng.randrange(k)] = 4.0 if rng.random() < 0.5 else 2.0000002
     elif k >= 2 and special < 0.17 and not mixed:
         kind = 'subarray'
         ants[rng.randrange(k)] = ('m000', 'm062')
@@ -367,8 +368,10 @@ def read_arrays(d):
                 flags=np.asarray(d.flags[:]).copy(), weights=np.asarray(d.weights[:]).copy())
 
 
-def part_wire(info, t_epoch, unit, starts, dps, names):
+def part_wire(info, t_epoch, unit, starts, dps, names, refused=False):
     ts = (info['ts'] - t_epoch) / unit
+    if refused:
+        ts = np.round(ts)       # differing dump periods (no common grid): the refusal does not depend on the timestamps
     assert np.all(ts == np.round(ts)), 'timestamps are not on the quarter-dump grid'
     sens = []
     for j, n in enumerate(names):
@@ -1318,7 +1321,7 @@ def run_case(ctx, cseed, gen=None, stages=('open', 'data', 'select', 'scans', 'o
             cs.unit = unit = min(dps) / 4.0
             cs.t_epoch = t_epoch = min(o['ts'][0] for o in infos)
             order = gen['order']
-            wire_parts = [part_wire(infos[i], t_epoch, unit, starts, dps, names) for i in order]
+            wire_parts = [part_wire(infos[i], t_epoch, unit, starts, dps, names, refused=len(dps) > 1) for i in order]
             cs.uns = [unsigned_bits([o['sens'][n] for o in infos]) for n in names]
             cs.lacks = [any(o['sens'][n] is None for o in infos) and any(o['sens'][n] is not None for o in infos) for n in names]
             wnames = [[j, 0, int(cs.uns[j])] for j in range(len(names))]
@@ -1330,6 +1333,8 @@ def run_case(ctx, cseed, gen=None, stages=('open', 'data', 'select', 'scans', 'o
                 exc = e
             ctx.count('fmt=' + cs.fmt)
             ctx.count('kind=' + gen['kind'])
+            if gen['kind'] == 'period':
+                ctx.count('dump_periods=' + ('equal_to_6_digits_only' if any(p['dt'] not in (2.0, 4.0) for p in gen['parts']) else 'clearly_different'))
             ctx.count('parts=%d' % len(parts))
             for n in names[:-2]:
                 pres = sum(1 for o in infos if o['sens'][n] is not None)
@@ -1457,17 +1462,21 @@ def run(ctx):
     n = ctx.scale(62, 1000)
     seeds = [ctx.rng.randrange(1 << 30) for _ in range(n)]
     kinds = {}
+
+    def qkind(gen):
+        close = gen['kind'] == 'period' and any(p['dt'] not in (2.0, 4.0) for p in gen['parts'])
+        return 'periodclose' if close else gen['kind']
     for cseed in seeds:
         cs = run_case(ctx, cseed)
-        kinds[cs.gen['kind']] = kinds.get(cs.gen['kind'], 0) + 1
+        kinds[qkind(cs.gen)] = kinds.get(qkind(cs.gen), 0) + 1
     # every run meets every special kind of case a few times, whatever the seed
-    quota = {'period': ctx.scale(4, 40), 'tie': ctx.scale(2, 20), 'subarray': ctx.scale(2, 30), 'spw': ctx.scale(2, 30),
+    quota = {'period': ctx.scale(3, 30), 'periodclose': ctx.scale(3, 30), 'tie': ctx.scale(2, 20), 'subarray': ctx.scale(2, 30), 'spw': ctx.scale(2, 30),
              'subperm': ctx.scale(3, 30), 'subdesc': ctx.scale(2, 20), 'spwvar': ctx.scale(3, 30), 'multi': ctx.scale(3, 40)}
     tries = 0
     while any(kinds.get(k, 0) < q for k, q in quota.items()) and tries < 20000:
         tries += 1
         cseed = ctx.rng.randrange(1 << 30)
-        kind = gen_case(random.Random(cseed))['kind']
+        kind = qkind(gen_case(random.Random(cseed)))
         if kinds.get(kind, 0) < quota.get(kind, 0):
             run_case(ctx, cseed)
             kinds[kind] = kinds.get(kind, 0) + 1
